@@ -90,8 +90,10 @@ PROPS = {
             "assumptions": _KE_ASSUME + ["proof of possession inside TLS 1.3 (quic-go) and inside the SSH user-auth signature check (x/crypto/ssh) is "
                                          "assumed: the decision models take 'this key was proven' as an input",
                                          "fingerprints are treated as injective (identity = key)"]},
-    "C05": {"streams": [_KE_STREAM], "oracles": ["ke"], "rule": _KE_RULE, "assumptions": _KE_ASSUME,
-            "oracle_n": {"quick": 3000, "thorough": 60000}},
+    "C05": {"streams": [_KE_STREAM, _KET_STREAM], "oracles": ["ke", "ket"], "rule": _KE_RULE + " " + _KET_RULE + " ket oracle, continuity case: a channel established with key 1 "
+            "goes quiet until every session it holds has expired (the application keeps trying to send), then a party with another key, which the predicate accepts on "
+            "first contact, handshakes from the other end: the channel must not report that key, become ready with it or hand out its data.", "assumptions": _KE_ASSUME,
+            "oracle_n": {"quick": 3000, "thorough": 60000}, "oracle_n_by": {"ket": {"quick": 250, "thorough": 12000}}},
     "C07": {"streams": [_KE_STREAM, _KET_STREAM], "oracles": ["ke", "ket", "kesw"], "rule": _KE_RULE + " " + _KET_RULE + " " + _KESW_RULE, "oracle_n": {"quick": 3000, "thorough": 60000},
             "oracle_n_by": {"ket": {"quick": 250, "thorough": 12000}, "kesw": {"quick": 8, "thorough": 500}},
             "assumptions": _KE_ASSUME + ["convergence is proved for fresh channels and for a peer restart after establishment / after the "
